@@ -28,10 +28,10 @@ print()
 import re
 def batch(name):
     m = re.match(r'C\d\d([a-z]?)-', name)
-    return {'': '1', 'b': '2', 'c': '3', 'd': '4 (asked to be as hard to find as possible)', 'e': '5 (after all strengthening; same brief as 3)', 'f': '6 (as hard to find as possible, told of the newer generators)'}[m.group(1)]
+    return {'': '1', 'b': '2', 'c': '3', 'd': '4 (asked to be as hard to find as possible)', 'e': '5 (after all strengthening; same brief as 3)', 'f': '6 (as hard to find as possible, told of the newer generators)', 'g': '7 (as hard to find as possible, told of everything)'}[m.group(1)]
 print('| batch | kept changes | caught by its own check at first evaluation | caught now |')
 print('|---|---|---|---|')
-for bname in ['1', '2', '3', '4 (asked to be as hard to find as possible)', '5 (after all strengthening; same brief as 3)', '6 (as hard to find as possible, told of the newer generators)']:
+for bname in ['1', '2', '3', '4 (asked to be as hard to find as possible)', '5 (after all strengthening; same brief as 3)', '6 (as hard to find as possible, told of the newer generators)', '7 (as hard to find as possible, told of everything)']:
     rs = [r for r in rows if batch(r[0]) == bname]
     print('| %s | %d | %d | %d |' % (bname, len(rs), sum(r[2] for r in rs), sum(r[1] in r[4] for r in rs)))
 print()
